@@ -186,12 +186,12 @@ static void run_message(vh_ctx_t * v, msg_t * m, int via_flush, const char * how
 /* ---- a second context ("module") whose parser runs inside the callbacks of the first ("mainframe" forwarding a query) --------- */
 static vh_ctx_t * vB; static vh_sig_t sigsB[NQ + NC]; static int nested_stage; static unsigned nested_runs, nested_bad; static char nested_got[80];
 static void nested_hook(scpi_t * context, int stage) {
-    static const char fwd[] = "Q1?;C1;Q2?\n"; static const char want[] = "15;\"m\"" SCPI_LINE_ENDING;
+    static const char fwd[] = "Q1?;C1;Q2?\n"; char want[24]; size_t wl = (size_t) snprintf(want, sizeof want, "15;\"m\"%s", SCPI_LINE_ENDING);
     if (!vB || context == vB->ctx || stage != nested_stage) return;
     vh_ctx_clear_capture(vB);
     vh_input(vB, fwd, sizeof fwd - 1);
     nested_runs++;
-    if (vB->out.len != sizeof want - 1 || memcmp(vB->out.p, want, sizeof want - 1) != 0 || vB->nflush != 1) { if (!nested_bad++) snprintf(nested_got, sizeof nested_got, "%s", vh_esc(vB->out.p ? vB->out.p : "", vB->out.len)); }
+    if (vB->out.len != wl || memcmp(vB->out.p, want, wl) != 0 || vB->nflush != 1) { if (!nested_bad++) snprintf(nested_got, sizeof nested_got, "%s", vh_esc(vB->out.p ? vB->out.p : "", vB->out.len)); }
 }
 static void nested_begin(uint64_t idx) {
     memset(sigsB, 0, sizeof sigsB);
